@@ -748,5 +748,9 @@ func init() {
 			}
 			keyfileCase(c, dir, e, passwords[i%len(passwords)], fl)
 		}
+		// 6. password alphabets: own password opens, every near miss (white space, case, normalisation, …) is refused
+		walletPasswordFamily(c, dir)
+		// 7. operation sequences on one key file object / one Manager: decrypting is read-only
+		walletSequences(c, dir)
 	})
 }
